@@ -380,7 +380,7 @@ class C18:
                         sub = replay_prefix(xd, spec, cfg, ops, ci)
                         before = O.snapshot(sub.world)
                         where = "op %d (%s %s) with fault %s#%d" % (ci, op[0], path_str(op[1]), kind, k)
-                        etype = ("plain", "zerodiv", "key", "value", "type", "os")[(k + ci + len(kind)) % 6]
+                        etype = ("plain", "zerodiv", "key", "value", "type", "os", "index")[(k + ci + len(kind)) % 7]
                         count("fault_type:" + etype)
                         fst = sub.step(op, fault={"kind": kind, "n": k, "fired": False, "tag": k, "exc": etype})
                         nfaults += 1
@@ -391,7 +391,7 @@ class C18:
                         if case.get("double") and len(ks) > 1:
                             k2 = ks[(ks.index(k) * 7 + 3) % len(ks)]
                             tr, exc = run_traced(lambda: sub.world.apply(op), {"kind": kind, "n": k2, "fired": False, "tag": k2,
-                                                                                 "exc": ("zerodiv", "plain", "key")[k2 % 3]})
+                                                                                 "exc": ("zerodiv", "plain", "key", "index")[k2 % 4]})
                             nfaults += 1
                             count("fault:second_in_a_row")
                             fst2 = type(fst)()
@@ -1306,6 +1306,9 @@ class C13:
                 if exc is not None:
                     raise Violation(prop + ".gen_fun_raises", "%s: gen_fun raised %s: %s" % (where, type(exc).__name__, exc))
                 f = S.mgr.gen_fun(fname, **kwargs)
+                # another manager (the twin: same labels, other containers) generates a function of the same name in
+                # between; the function made for the subject must keep working on the subject's containers
+                run_traced(lambda: T.mgr.gen_fun(fname, **{n: T.ref(p) for n, p in zip(names, args)}))
                 calls += 1
                 ex.count("gen_fun_calls")
                 ex.count("tasks_in_generated_functions", len(got))
@@ -1443,6 +1446,18 @@ class C20:
                 record("epilogue%d" % j, exc)
                 if exc is not None:
                     ex.count("exceptions_in_transcript")
+        if stopped is None and case.get("pickle", True):
+            # a pickle round trip of the manager (with its containers): outcome and restored definitions are part of the transcript
+            try:
+                w = ex.world
+                m2, roots2 = pickle.loads(pickle.dumps((w.mgr, w.rootobj)))
+                rec = ["pickle", None, O.definitions(m2), [list(x) for x in m2.dump()]]
+            except SimStall:
+                raise
+            except Exception as e:
+                rec = ["pickle", type(e).__name__]
+                ex.count("exceptions_in_transcript")
+            steps.append(digest(rec))
         out = _outcome(ex, None, None, nontrivial, {"steps": steps}, digest(steps))
         return out
 
